@@ -121,6 +121,19 @@ func genC15(t *core.Tape, tier string) *Scenario {
 			d = time.Duration(1+t.Choose(30, "deadline.ms.n")) * time.Millisecond
 		}
 		p.Deadline = d
+		if p.Kind == KBidi && len(p.ReqMsgs) > 0 && t.Bool(1, 6, "first.send.unsendable") {
+			// the first Send fails on the client (the message cannot be
+			// marshalled), the caller turns to the response side: whatever it
+			// calls there returns when the deadline passes, at the latest
+			sc.Clients[0].FailCodec = true
+			p.ReqMsgs[0] = append(append([]byte(nil), marshalFailMarker...), p.ReqMsgs[0]...)
+			p.Split = false
+			p.CProg = []COp{{Op: "send", Arg: 0}, {Op: "recvall"}, {Op: "closeresp"}}
+			p.CProgRcv = nil
+			p.HProg = []HOp{{Op: "drain"}, {Op: "waitctx"}}
+			p.HErr = &ErrPlan{CtxErr: true}
+			sc.Notes["first_send_unsendable"]++
+		}
 	case 3: // no cancellation: the handler returns a context error of its own
 		sc.Notes["mode_handler_ctx_error"]++
 		p.HErr = &ErrPlan{CtxKind: 1 + t.Choose(4, "ctxkind")}
